@@ -580,13 +580,13 @@ def check_c17(tier, replay=None):
                     tags = tags[:rng.randrange(1, len(tags))] + ([["FEN", fen], ["SetUp", "1"]] if fen != START_FEN else [])
                     tags = [list(x) for x in dict((a, b) for a, b in tags).items()]
                 castle = False
-                if rng.random() < 0.2:
+                if rng.random() < 0.3:
                     # castling that gives check (the king it checks is boxed in on the rook's file): `O-O+`, `O-O-O+` as ordinary movetext tokens
                     fen = rng.choice(CASTLE_CHECK_FENS)
                     castle = True
                     tags = [t for t in tags if t[0] not in ("FEN", "SetUp")] + [["SetUp", "1"], ["FEN", fen]]
                 games.append({"fen": fen, "plies": rng.choice([0, 1, 2, 7, 20, 40, 80, 120] if T else [0, 1, 2, 7, 20, 40]) if not castle else rng.choice([2, 3, 4, 7]),
-                              "tags": tags, "clk": rng.random() < 0.5, "marks": rng.random() < 0.3, "castle": castle, "result": res})
+                              "tags": tags, "clk": rng.random() < (0.25 if castle else 0.5), "marks": rng.random() < 0.3, "castle": castle, "result": res})
             specs.append({"games": games, "tail": rng.choice(["\n", "\n", "", "\n\n"])})
         sched = None
     # (C) TLC plays legal games and renders the databases
